@@ -5,6 +5,7 @@
    kind 8  kriging system        (8 nx dx x0 rot pol sel pts n S lambda coeffs var y) -> (solution A.lambda At.y rhs)
    kind 10 ProjConvolution       (10 nxR dxR x0R seismic-nodes nz conv v y) -> (shifts mesh2point point2mesh rows)
    kind 12 shift operator, per-mesh anisotropy (12 ndim n ((A scales rt) ...) meshes) -> (ok Sraw tildeC)
+   kind 14 kriging system, several structures, one variance per datum (14 nx dx x0 rot pol sel pts ((n S lambda coeffs) ...) var y) -> (solution rhs)
    kind 7  Markov coefficients   (7 p)                                 -> (coeffs)
    kind 2  precision operators   (2 n S lambda coeffs v dest)        -> (free assembled cumul training horner Q addfree addcs) *)
 From Coq Require Import List ZArith QArith Bool.
@@ -44,6 +45,12 @@ Definition asMeshFE (s : sx) : option (list nat * list (list Q)) :=
 Definition asParamNS (s : sx) : option (mat * list Q * Q) :=
   match s with
   | L [A; sc; rt] => match asMQ A, asVQ sc, asQ rt with Some a, Some b, Some c => Some (a, b, c) | _, _, _ => None end
+  | _ => None
+  end.
+
+Definition asBlock (s : sx) : option (nat * mat * list Q * list Q) :=
+  match s with
+  | L [n; Sm; lam; cf] => match asNat n, asMQ Sm, asVQ lam, asVQ cf with Some a, Some b, Some c, Some d => Some (a, b, c, d) | _, _, _, _ => None end
   | _ => None
   end.
 
@@ -125,6 +132,23 @@ Definition run (c : sx) : sx :=
           | None => L [I 0]
           end
       | _, _, _, _ => sx_error 1
+      end
+  | L [I 14%Z; nx; dx; x0; rot; pol; sel; pts; blk; var; y] =>
+      match asVZ nx, asVQ dx, asVQ x0, asMQ rot, asB pol, asVB sel, asMQ pts with
+      | Some nx', Some dx', Some x0', Some rot', Some pol', Some sel', Some pts' =>
+          match asListOf asBlock blk, asVQ var, asVQ y with
+          | Some blk', Some var', Some y' =>
+              let t := {| t_grid := mk_grid nx' dx' x0' rot'; t_pol := pol'; t_sel := sel' |} in
+              let rows := fst (proj_turbo t pts') in
+              let qb := map (fun b => (fst (fst (fst b)), build_Q (fst (fst (fst b))) (snd (fst (fst b))) (snd (fst b)) (snd b))) blk' in
+              let Qm := block_diag_mat qb in
+              let rm := multi_rows (length pts') (map (fun b => (fst b, rows)) qb) 0 in
+              let N := block_size qb in
+              L [match krig_solve N Qm rm var' y' with Some z => L [I 1; ofVQ z] | None => L [I 0] end;
+                 ofVQ (krig_rhs N rm var' y')]
+          | _, _, _ => sx_error 1
+          end
+      | _, _, _, _, _, _, _ => sx_error 1
       end
   | L [I 7%Z; p] =>
       match asNat p with Some p' => L [ofVQ (markov_coeffs p')] | None => sx_error 1 end
